@@ -28,7 +28,7 @@ RULE = ('random histories of 12-45 operations over {new_key, get_key, new_key_ch
         '#keys, #txs) are counted too')
 TRUSTED_BASE = ['vf/chain_model.py (truth about outpoints)', 'vf/wallet_ref.py (which addresses are the wallet\'s)', 'sqlite3 read-only connection']
 ASSUMPTIONS = ['a second long-lived handle opened before an operation is not required to see it; only the operating handle and fresh handles are judged',
-               'I3 is asserted only while the wallet is in sync with a healthy provider (not after a lagging rescan or transaction_delete); outputs of an address with 20 or more unspent outputs may be missing (utxos_update fetches max_utxos=20 per address and call)',
+               'I3 is asserted only while the wallet is in sync with a healthy provider (not after a lagging rescan or transaction_delete); the expected set after a refresh is the first page (max_utxos=20 outputs per address) the provider delivers',
                'a rejected or failed broadcast counts as "nothing happened"']
 
 K_BAL_STALE = 'C08/operating-handle/balance-kept-when-account-emptied'
@@ -75,6 +75,23 @@ class History:
     # -------------------------------------------------------------- helpers
     def model_unspent_known(self):
         return {k: v['value'] for k, v in self.CH.unspent(self.known).items() if v['network'] == self.ctx.network}
+
+    def delivered_unspent(self, page=20):
+        """what a refresh through the provider delivers: utxos_update asks for at most max_utxos=20 outputs per address
+        and call (documented) and first marks everything it knew as spent, so after a refresh the wallet knows exactly the
+        first page of every address, in the provider's order (most confirmations first, then txid, output index)"""
+        per = collections.defaultdict(list)
+        for k, v in self.CH.unspent(self.known).items():
+            if v['network'] == self.ctx.network:
+                per[v['address']].append((-self.CH.confirmations(v), k[0], k[1], v['value']))
+        out = {}
+        for a, lst in per.items():
+            lst.sort()
+            if len(lst) > page:
+                self.col.probe('refresh_page_limit_reached')
+            for _, txid, n, val in lst[:page]:
+                out[(txid, n)] = val
+        return out
 
     def add_addr(self, wk):
         a = wk.address
@@ -141,7 +158,7 @@ class History:
                 if lagged:
                     self.sync = False
                 else:
-                    self.E = self.model_unspent_known()
+                    self.E = self.delivered_unspent()
                     self.sync = True
             elif op == 'utxo_add':
                 a = rnd.choice(sorted(x for x in self.known if self.addr_acc.get(x, 0) == 0))
@@ -165,6 +182,12 @@ class History:
                         if not [u for u in lst if self.addr_acc.get(u['address'], 0) == a_]:
                             w.utxos_update(account_id=a_)
                     self.E = dict(cur)
+                    dl = self.delivered_unspent()
+                    for a_ in self.accounts:
+                        if not [u for u in lst if self.addr_acc.get(u['address'], 0) == a_]:
+                            for k in list(self.E):
+                                if self.addr_acc.get(CH.utxos[k]['address'], 0) == a_ and k not in dl:
+                                    del self.E[k]
                     self.sync = True
             elif op in ('send', 'send_nobroadcast', 'send_fail', 'sweep'):
                 self.do_send(op)
@@ -359,15 +382,8 @@ class History:
                 self.viol(None, 'I4 %s handle: outpoint %s:%d consumed by a sent transaction is listed as unspent' % (which, op_[0][:12], op_[1]), op_, 'not listed')
         # I3
         if self.sync and lib_set != self.E:
-            # utxos_update fetches at most max_utxos (default 20) outputs per address and call (documented): outputs of an
-            # address that holds 20 or more unspent outputs may legitimately be missing; nothing may ever be extra
-            crowded = collections.Counter(u['address'] for u in self.CH.unspent(self.known).values())
-            absent = [k for k in set(self.E) - set(lib_set) if crowded.get(self.CH.utxos[k]['address'], 0) < 20]
-            if not absent and not (set(lib_set) - set(self.E)):
-                self.col.probe('i3_page_limit_skipped')
-                return res
             extra = sorted(set(lib_set) - set(self.E))[:3]
-            missing = sorted(absent)[:3]
+            missing = sorted(set(self.E) - set(lib_set))[:3]
             self.viol(None, 'I3 %s handle: unspent set differs from the model (extra %d, missing %d)' % (which, len(set(lib_set) - set(self.E)), len(set(self.E) - set(lib_set))),
                       {'extra': extra, 'missing': missing}, 'equal sets')
         return res
